@@ -134,7 +134,7 @@ class CayleyGraph:
 
     def encode_states(self, states: AnyStateType) -> torch.Tensor:
         """Converts states from human-readable to internal representation."""
-        states = torch.as_tensor(states, device=self.device)
+        states = torch.as_tensor(states, device=self.device).to(torch.int64)
         states = states.reshape((-1, self.definition.state_size))
         if self.string_encoder is not None:
             return self.string_encoder.encode(states)
